@@ -211,4 +211,46 @@ theorem chain_reparse_aux (os : List AnyObj) : ∀ (x : Obj) (ps : List LayerInf
     | app _ => exact hst'.elim
     | wifi _ => exact hst'.elim
 
+/-- **C03 / L2, whole packets (`l2_chain_reparse`)**: for every stack `o :: os` of L2 layers over an optional RawPDU that
+    the protocols can express (`Stackable`), if `PDU::serialize()` returns `out` then the parsing constructor of the
+    outermost class accepts `out` (with the drivers' fuel `|out| + 2`) and yields a stack `os'` with the same view:
+    the same classes in the same order, the same `Fields.view` per layer (`^` tags compared for the layer directly above a
+    non-empty unrecognised payload), the same payload bytes followed by at most `padOf (o :: os)` = Σ `trailer_size()`
+    zero bytes of minimum-frame padding. -/
+theorem l2_chain_reparse (o : AnyObj) (os : List AnyObj) (hs : Stackable (o :: os)) (out : Bytes)
+    (hser : serializeObjs (o :: os) = .ok out) :
+    ∃ os', parseChain (out.length + 2) o.info.1 out = .ok os' ∧ ViewEq (padOf (o :: os)) (o :: os) os' := by
+  cases o with
+  | raw p =>
+    have hr : os = [] := hs
+    subst hr
+    have hser' : serializeInto (semsAux [] [.raw p] (infos [.raw p])) (List.replicate p.length 0) = .ok out := by
+      have : Wire.sizeOf (semsAux [] [.raw p] (infos [.raw p])) = p.length := by
+        simp [semsAux, infos, Wire.sizeOf, AnyObj.hdr, AnyObj.trl]
+      rw [← this]; exact hser
+    rw [serializeInto_raw [] p _ (by simp)] at hser'
+    injection hser' with hser'
+    subst hser'
+    refine ⟨[.raw p], by simp [parseChain, modelled, parseOne, AnyObj.info], ?_⟩
+    have : padOf [AnyObj.raw p] = 0 := by simp [padOf, infos, AnyObj.trl]
+    rw [this]
+    exact viewEq_raw p
+  | l2 x =>
+    rcases chain_reparse_aux os x [] (List.replicate (Wire.sizeOf (sems (.l2 x :: os))) 0) 0 hs (by simp [sems])
+      (.inl rfl) with ⟨out', hser', hl, hpar⟩
+    have : out' = out := by
+      have := hser'.symm.trans hser
+      injection this
+    subst this
+    rcases hpar (out'.length + 2) (by omega) with ⟨os', hp, hv⟩
+    rw [List.replicate_zero, List.append_nil] at hp
+    rw [Nat.zero_add] at hv
+    exact ⟨os', hp, hv⟩
+  | ip _ => exact hs.elim
+  | ip6 _ => exact hs.elim
+  | icmp _ => exact hs.elim
+  | tr _ => exact hs.elim
+  | app _ => exact hs.elim
+  | wifi _ => exact hs.elim
+
 end Tins.Wire.L2
